@@ -1,5 +1,7 @@
 #! /usr/bin/env python3
 
+from copy import deepcopy
+
 from torch.nn import ModuleList
 
 from gpytorch.likelihoods import Likelihood
@@ -76,7 +78,7 @@ class LikelihoodList(Likelihood):
             ]
 
     def get_fantasy_likelihood(self, **kwargs):
-        if "noise" in kwargs:
+        if kwargs.get("noise") is not None:
             noise = kwargs.pop("noise")
             # one (optional) noise tensor per member; None: no fantasy noise for that member
             members = [
@@ -84,8 +86,17 @@ class LikelihoodList(Likelihood):
                 for likelihood, noise_ in length_safe_zip(self.likelihoods, noise)
             ]
         else:
-            members = [likelihood.get_fantasy_likelihood(**kwargs) for likelihood in self.likelihoods]
-        return self.__class__(*members)
+            kwargs.pop("noise", None)
+            copies = {}  # a likelihood that appears twice in the list appears twice in the fantasy list (one copy)
+            for likelihood in self.likelihoods:
+                if id(likelihood) not in copies:
+                    copies[id(likelihood)] = likelihood.get_fantasy_likelihood(**kwargs)
+            members = [copies[id(likelihood)] for likelihood in self.likelihoods]
+        # a copy of the list itself (its own state, attributes, mode) whose members are the fantasy likelihoods
+        fantasy_likelihood = deepcopy(self)
+        for i, member in enumerate(members):
+            fantasy_likelihood.likelihoods[i] = member
+        return fantasy_likelihood
 
     def pyro_sample_output(self, *args, **kwargs):
         if "noise" in kwargs:
